@@ -20,4 +20,10 @@ for i in range(1, 21):
         print(pid, "MISSING:", missing)
     out[pid] = h
     print(pid, len(names), "functions")
+consts = {}
+for pid in list(out):
+    chk = importlib.import_module(f"props.{pid.lower()}").CHECK
+    files = sorted(common.anchor_files(pid) | {n.split(":")[0] for n in (getattr(chk, "modelled_functions", []) or [])})
+    consts.update(common.file_int_constants(files))
+out["__consts__"] = consts
 (Path("/verif/harness/model_map.json")).write_text(json.dumps(out, indent=1, sort_keys=True))
